@@ -65,11 +65,19 @@ def ref(e, o):
                 raise RefError("domain")
         return v
     if n == "Template":
-        params = {f":{k}:": ref(v, o) for k, v in e.params.items()}
+        # "every {:name:} [is replaced] by the string form of the named parameter evaluated under the same options": parameters are
+        # substituted as they are, after the option references have been resolved
+        params = {k: str(ref(v, o)) for k, v in e.params.items()}
+        text = e.template
+        for k in params:
+            text = text.replace("{:" + k + ":}", "\x00" + k + "\x00")
         try:
-            return str(resolve(e.template, mix(o, params)))
+            res = str(resolve(text, o))
         except KeyError as k:
             raise RefError("missing", k.args[0])
+        for k, v in params.items():
+            res = res.replace("\x00" + k + "\x00", v)
+        return res
     if n == "Apply":
         x = ref(e.evaluatable, o)
         f = ref(e.func, o)
